@@ -38,9 +38,17 @@ def insert(self, st):
     return r
 
 
+DUMP_EVENTS = []     # indices (into LOG["cur"]) after which a dump was written
+
+
 def write(self, mediator):
-    import dill
-    import jellyfysh.setting as setting
-    import jellyfysh.base.uuid as uuid
+    """The REAL DumpingOutputHandler.write runs (whatever it does to the file, the random stream, ...); the dump is then
+    read back from the file it wrote - exactly what resume.main() will load."""
+    import contextlib
+    import os
+    with open(os.devnull, "w") as dn, contextlib.redirect_stdout(dn):
+        ORIG["write"](self, mediator)
+    DUMP_EVENTS.append(len(LOG["cur"]))
     if len(DUMPS) < MAX_DUMPS[0]:
-        DUMPS.append((len(LOG["cur"]), dill.dumps([mediator, setting, uuid, random.getstate()])))
+        with open(self._output_filename, "rb") as f:
+            DUMPS.append((len(LOG["cur"]), f.read()))
